@@ -292,5 +292,19 @@ def finish(prop, tier, seed, level, coverage, rejected, t0, assumptions=(), extr
     return 1 if viol else 0
 
 
+TRACKED = []
+
+
+def track(rejected):
+    """remember a check's list of rejected observations, so that a later step that cannot run (no accepted observation
+    left to build a canary from, because a defect made every observation fail) still leads to a report"""
+    TRACKED.append(rejected)
+    return rejected
+
+
+def tracked_rejections():
+    return [r for lst in TRACKED for r in lst]
+
+
 def rng(seed, salt=""):
     return random.Random("%s/%s" % (seed, salt))
